@@ -22,18 +22,20 @@ import (
 	"github.com/scrapli/scrapligo/driver/netconf"
 	"github.com/scrapli/scrapligo/driver/opoptions"
 	"github.com/scrapli/scrapligo/driver/options"
+	"github.com/scrapli/scrapligo/transport"
 
 	"verifgo/sim"
 )
 
 // c07Spec is one case; it is also the replay line (`String`/`parseC07Spec`).
 type c07Spec struct {
-	NC      bool
-	Mode    int // sim.Pipe.CloseUnblocks
-	Twice   bool
-	HasOp   bool
-	Natural string   // non-empty: natural-timing scenario name, no schedule control
-	Sched   []string // tokens R K O N W S Ed Ee Ex
+	NC       bool
+	Mode     int // sim.Pipe.CloseUnblocks
+	Twice    bool
+	HasOp    bool
+	CloseErr bool     // the transport's Close() returns an error (sim.CloseErr)
+	Natural  string   // non-empty: natural-timing scenario name, no schedule control
+	Sched    []string // tokens R K O N W S Ed Ee Ex
 }
 
 func (s c07Spec) String() string {
@@ -51,7 +53,7 @@ func (s c07Spec) String() string {
 	if nat == "" {
 		nat = "-"
 	}
-	return fmt.Sprintf("nc=%s mode=%d twice=%s op=%s nat=%s sched=%s", b(s.NC), s.Mode, b(s.Twice), b(s.HasOp), nat, sch)
+	return fmt.Sprintf("nc=%s mode=%d twice=%s op=%s cerr=%s nat=%s sched=%s", b(s.NC), s.Mode, b(s.Twice), b(s.HasOp), b(s.CloseErr), nat, sch)
 }
 
 func parseC07Spec(line string) (c07Spec, error) {
@@ -70,6 +72,8 @@ func parseC07Spec(line string) (c07Spec, error) {
 			s.Twice = kv[1] == "1"
 		case "op":
 			s.HasOp = kv[1] == "1"
+		case "cerr":
+			s.CloseErr = kv[1] == "1"
 		case "nat":
 			if kv[1] != "-" {
 				s.Natural = kv[1]
@@ -302,7 +306,11 @@ func runC07Child(line string) {
 		s.Behave = func(i int, req sim.NCRequest) sim.NCReply { return sim.NCReply{Never: true} }
 		s.CloseUnblocks = spec.Mode
 		s.Start()
-		d, err := netconf.NewDriver("h", options.WithCustomTransport(s), options.WithAuthBypass(),
+		var impl transport.Implementation = s
+		if spec.CloseErr {
+			impl = sim.WithCloseErr(s, nil)
+		}
+		d, err := netconf.NewDriver("h", options.WithCustomTransport(impl), options.WithAuthBypass(),
 			options.WithTimeoutOps(openTimeout), options.WithReadDelay(50*time.Microsecond))
 		if err != nil {
 			fmt.Println("SETUP-ERROR", err)
@@ -321,7 +329,11 @@ func runC07Child(line string) {
 		dev.Handle = func(c *sim.CLI, line string) string { return "out of " + line + "\n" }
 		dev.CloseUnblocks = spec.Mode
 		dev.Start()
-		d, err := generic.NewDriver("h", options.WithCustomTransport(dev), options.WithAuthBypass(),
+		var impl transport.Implementation = dev
+		if spec.CloseErr {
+			impl = sim.WithCloseErr(dev, nil)
+		}
+		d, err := generic.NewDriver("h", options.WithCustomTransport(impl), options.WithAuthBypass(),
 			options.WithTimeoutOps(openTimeout), options.WithReadDelay(50*time.Microsecond))
 		if err != nil {
 			fmt.Println("SETUP-ERROR", err)
